@@ -1,7 +1,7 @@
 (** * ExeA/ArgProofs.v — the C01 theorems about whole requests (stage 1: executor without memo) *)
 From Coq Require Import List NArith ZArith Bool Lia.
 From ApiFu Require Import Base.Sexp ExeA.ArgData ExeA.ArgArgs ExeA.ArgModel ExeA.ArgSpec
-     ExeA.ArgBaseProofs ExeA.ArgCollectProofs ExeA.ArgSpecProofs ExeA.ArgSimProofs.
+     ExeA.ArgBaseProofs ExeA.ArgCollectProofs ExeA.ArgSpecProofs ExeA.ArgDirProofs ExeA.ArgSimProofs.
 Import ListNotations.
 
 Section Top.
@@ -12,21 +12,26 @@ Section Top.
 
   (** everything at once: for a well-typed document the executor finishes, and its response is
       related to the reference response *)
-  Theorem run_refines_spec n W :
-    doc_ok S D E fuel n = true ->
+  (** [wd = true]: the document's directive conditions are all evaluable ([doc_ok]); [wd = false]:
+      they need not be, but then the executor at hand must be silent about them ([report M =
+      false]: a proof device, see [run_report_independent]) *)
+  Theorem run_refines_spec_gen wd n W :
+    (report M = true -> wd = true) ->
+    conds_gen S D E wd = true ->
+    match s_root_type S (op_kind D) with Some rt => sels_ok S D E fuel n rt (op_sels D) | None => false end = true ->
     exists errs,
       run M S D E fuel W = Done (data (exec_spec S D E fuel W)) errs /\
       subseq errs (all_errors (exec_spec S D E fuel W)) /\
       Forall (explained errs) (failure_nulls (exec_spec S D E fuel W)).
   Proof.
-    intro Hok. unfold doc_ok in Hok. apply andb_true_iff in Hok as [Hconds Hroot].
+    intros Hb Hconds Hroot.
     unfold run, exec_spec. change (root_type S (op_kind D)) with (s_root_type S (op_kind D)).
     destruct (s_root_type S (op_kind D)) as [rt|]; [|discriminate].
-    assert (Hcs : forallb (sel_conds_ok S E) (op_sels D) = true).
-    { unfold conds_ok in Hconds. apply andb_true_iff in Hconds as [H _]. exact H. }
-    pose proof (sim_selections M S D E fuel Hmemo Hconds n
+    assert (Hcs : forallb (sel_conds_gen S E wd) (op_sels D) = true).
+    { unfold conds_gen in Hconds. apply andb_true_iff in Hconds as [H _]. exact H. }
+    pose proof (sim_selections M S D E fuel Hmemo wd Hconds Hb n
                                (children_of M S D E fuel W) (s_children_of S D E fuel W) rt (op_sels D) [] init_state
-                               (children_sim M S D E fuel Hfix1 Hfix7 Hmemo Hconds W)
+                               (children_sim M S D E fuel Hfix1 Hfix7 Hmemo wd Hconds Hb W)
                                (wf_s_children_of S D E fuel W) Hroot Hcs) as H.
     pose proof (swf_selection_set S D E fuel (s_children_of S D E fuel W) rt (op_sels D) []
                                   (wf_s_children_of S D E fuel W)) as [Hw _].
@@ -45,10 +50,33 @@ Section Top.
       intros e' He' Hin'. pose proof (w_nodup _ _ Hw) as Hnd. unfold errs_of in Hnd. rewrite map_app in Hnd.
       apply (NoDup_app_disjoint _ _ (e_path e') Hnd); apply in_map; [apply (subseq_incl _ _ Hs); exact He'|exact Hin'].
   Qed.
+
+  Theorem run_refines_spec n W :
+    doc_ok S D E fuel n = true ->
+    exists errs,
+      run M S D E fuel W = Done (data (exec_spec S D E fuel W)) errs /\
+      subseq errs (all_errors (exec_spec S D E fuel W)) /\
+      Forall (explained errs) (failure_nulls (exec_spec S D E fuel W)).
+  Proof.
+    intro Hok. unfold doc_ok in Hok. apply andb_true_iff in Hok as [Hconds Hroot].
+    apply (run_refines_spec_gen true n W (fun _ => eq_refl)); [|exact Hroot].
+    rewrite conds_gen_true. exact Hconds.
+  Qed.
+
+  (** without the directive conjunct, for an executor that is silent about unevaluable directives *)
+  Theorem run_silent_data n W :
+    report M = false -> doc_ok_nodirs S D E fuel n = true ->
+    exists errs, run M S D E fuel W = Done (data (exec_spec S D E fuel W)) errs.
+  Proof.
+    intros Hr Hok. unfold doc_ok_nodirs in Hok. apply andb_true_iff in Hok as [Hconds Hroot].
+    assert (Hb : report M = true -> false = true) by (intro H; rewrite Hr in H; discriminate).
+    destruct (run_refines_spec_gen false n W Hb Hconds Hroot) as [errs [H _]].
+    exists errs. exact H.
+  Qed.
 End Top.
 
 (** ** the executor as it is (memo cache on, both repairs in) *)
-From ApiFu Require Import ExeA.ArgHyps ExeA.ArgDirProofs ExeA.ArgCacheProofs.
+From ApiFu Require Import ExeA.ArgHyps ExeA.ArgDirProofs ExeA.ArgCacheProofs ExeA.ArgReportProofs.
 
 Section Fixed.
   Variables (S : schema) (D : document) (E : env) (fuel : nat).
@@ -100,6 +128,37 @@ Section Fixed.
     Forall (explained errs) (failure_nulls (exec_spec S D E fuel W)).
   Proof. destruct (fixed_refines W) as [errs' [H [_ Hc]]]. rewrite H. intro H'. inversion H'; subst. exact Hc. Qed.
 
+  (** *** the same without the directive conjunct of [doc_ok] (no statement about the errors):
+      the cache is transparent; without the cache the result does not depend on what has been
+      reported ([run_report_independent]); and the executor that is silent about unevaluable
+      directives refines the reference under [doc_ok_nodirs] *)
+  Lemma fixed_data_nodirs m W :
+    doc_ok_nodirs S D E fuel m = true ->
+    exists errs, run fixed S D E fuel W = Done (data (exec_spec S D E fuel W)) errs.
+  Proof.
+    intro Hd. rewrite (collect_cache_transparent W).
+    destruct (run_silent_data silent_nomemo S D E fuel eq_refl eq_refl eq_refl m W eq_refl Hd) as [errs0 H0].
+    pose proof (run_report_independent fixed_nomemo silent_nomemo S D E fuel eq_refl eq_refl eq_refl eq_refl W) as Hs.
+    rewrite H0 in Hs. destruct (run fixed_nomemo S D E fuel W) as [d errs| |]; cbn in Hs; try (destruct Hs; fail).
+    subst d. exists errs. reflexivity.
+  Qed.
+
+  Theorem exec_total_nodirs m W :
+    doc_ok_nodirs S D E fuel m = true -> exists d errs, run fixed S D E fuel W = Done d errs.
+  Proof. intro Hd. destruct (fixed_data_nodirs m W Hd) as [errs H]. eauto. Qed.
+
+  Theorem exec_data_eq_nodirs m W d errs :
+    doc_ok_nodirs S D E fuel m = true ->
+    run fixed S D E fuel W = Done d errs -> d = data (exec_spec S D E fuel W).
+  Proof. intros Hd H. destruct (fixed_data_nodirs m W Hd) as [errs' H']. rewrite H' in H. inversion H. reflexivity. Qed.
+
+  Theorem exec_data_finite_nodirs m W j errs :
+    doc_ok_nodirs S D E fuel m = true ->
+    run fixed S D E fuel W = Done (Some j) errs -> json_finite j = true.
+  Proof.
+    intros Hd H. apply (exec_data_eq_nodirs m W _ _ Hd) in H. symmetry in H. eapply spec_data_finite. exact H.
+  Qed.
+
   (** the repaired defect 7: data always has a JSON form *)
   Theorem exec_data_finite W j errs :
     run fixed S D E fuel W = Done (Some j) errs -> json_finite j = true.
@@ -109,8 +168,8 @@ Section Fixed.
 End Fixed.
 
 (** ** the two repaired defects, kept as witnesses: the code before each repair violates the property *)
-Definition before_fix1 : mode := {| fix1 := false; fix7 := true; memo := true; fixd := true; fullkey := true |}.
-Definition before_fix7 : mode := {| fix1 := true; fix7 := false; memo := true; fixd := true; fullkey := true |}.
+Definition before_fix1 : mode := {| fix1 := false; fix7 := true; memo := true; fixd := true; fullkey := true; report := true |}.
+Definition before_fix7 : mode := {| fix1 := true; fix7 := false; memo := true; fixd := true; fullkey := true; report := true |}.
 
 Definition w_Q : name := [81]%N.
 Definition w_Int : name := [73; 110; 116]%N.
@@ -173,8 +232,8 @@ Definition w_W_l : outcome :=
 
 (** before the repair (every traversal reports): one error with the cache, two without; after it:
     one, with and without *)
-Definition before_fixd : mode := {| fix1 := true; fix7 := true; memo := true; fixd := false; fullkey := true |}.
-Definition before_fixd_nomemo : mode := {| fix1 := true; fix7 := true; memo := false; fixd := false; fullkey := true |}.
+Definition before_fixd : mode := {| fix1 := true; fix7 := true; memo := true; fixd := false; fullkey := true; report := true |}.
+Definition before_fixd_nomemo : mode := {| fix1 := true; fix7 := true; memo := false; fixd := false; fullkey := true; report := true |}.
 
 Theorem collect_cache_transparent_refuted_before_fixd :
   exists S D E fuel W,
@@ -193,7 +252,7 @@ Qed.
     The node o of F merges with o{s} under p and with o{sn} under q: the merged sub-selection lists
     [__typename@F; s] and [__typename@F; sn] have the same type O, the same first node and the
     same length, so q.o is executed with the grouped field set cached for p.o. *)
-Definition coarse_memo : mode := {| fix1 := true; fix7 := true; memo := true; fixd := true; fullkey := false |}.
+Definition coarse_memo : mode := {| fix1 := true; fix7 := true; memo := true; fixd := true; fullkey := false; report := true |}.
 Definition w_o : name := [111]%N.
 Definition w_p : name := [112]%N.
 Definition w_q : name := [113]%N.
